@@ -82,6 +82,15 @@ def explains (guard : String) (c : Crash) : Bool :=
   else if has guard ".regex" then c.onStack "regexp.MustCompile"
   else false
 
+/-- The harness could not produce an observation. A case that ran into the per-case time budget
+(`{"hang": …}`: e.g. a bounded network wait of a helper library on a loaded machine) is **inconclusive** — C13 is
+about panics, a wait is not one — and never a disagreement; anything else is a harness problem. -/
+def noVerdict (obs : Json) : Verdict :=
+  match obs.getObjVal? "hang" with
+  | .ok _ => { agree := true, spec := true, tags := ["inconclusive:hang"], nontrivial := false,
+               note := "inconclusive: case exceeded its time budget (" ++ obs.compress ++ ")" }
+  | .error _ => { agree := false, spec := true, note := "harness: " ++ obs.compress, nontrivial := false }
+
 /-- What the model says about one case (a Pipeline document, or an object built from such documents). -/
 structure Pred where
   valid : Bool
@@ -163,7 +172,7 @@ def judge : Judge := liftJudge fun input obs => do
   let j := toJ specJ
   let o := mkOracle (parseOracle obs)
   match obs.getObjVal? "accepted" with
-  | .error _ => pure { agree := false, spec := true, note := "harness: " ++ obs.compress, nontrivial := false }
+  | .error _ => pure (noVerdict obs)
   | .ok _ =>
   match obsPanic obs with
   | some m => pure { agree := false, spec := false, sig := "panic:harness", note := m }
@@ -180,7 +189,7 @@ def judgeGF : Judge := liftJudge fun input obs => do
   let j := toJ specJ
   let o := mkOracle (parseOracle obs)
   match obs.getObjVal? "accepted" with
-  | .error _ => pure { agree := false, spec := true, note := "harness: " ++ obs.compress, nontrivial := false }
+  | .error _ => pure (noVerdict obs)
   | .ok _ =>
   match obsPanic obs with
   | some m => pure { agree := false, spec := false, sig := "panic:harness", note := m }
@@ -203,7 +212,7 @@ def judgeHTTP : Judge := liftJudge fun input obs => do
   let j := toJ specJ
   let o := mkOracle (parseOracle obs)
   match obs.getObjVal? "accepted" with
-  | .error _ => pure { agree := false, spec := true, note := "harness: " ++ obs.compress, nontrivial := false }
+  | .error _ => pure (noVerdict obs)
   | .ok _ =>
   match obsPanic obs with
   | some m => pure { agree := false, spec := false, sig := "panic:harness", note := m }
@@ -223,7 +232,7 @@ def judgeMQTT : Judge := liftJudge fun input obs => do
   let specJ ← input.getObjVal? "spec"
   let j := toJ specJ
   match obs.getObjVal? "accepted" with
-  | .error _ => pure { agree := false, spec := true, note := "harness: " ++ obs.compress, nontrivial := false }
+  | .error _ => pure (noVerdict obs)
   | .ok _ =>
   match obsPanic obs with
   | some m => pure { agree := false, spec := false, sig := "panic:harness", note := m }
